@@ -20,7 +20,14 @@ def _run(cmd, cwd, env=None, timeout=None):
 
 
 def _abnormal(rc):
-    return rc == "timeout" or (isinstance(rc, int) and (rc < 0 or rc in (101, 134, 139)))
+    return rc == "timeout" or (isinstance(rc, int) and (rc < 0 or rc in (97, 101, 134, 139)))
+
+
+def _hang_case(txt):
+    for line in (txt or "").split("\n"):
+        if line.startswith("HANG "):
+            return line.split()[1]
+    return None
 
 
 # ---------------------------------------------------------------------------------------------
@@ -77,6 +84,21 @@ def leg_c03_profiles(pid, tier, seed, h):
             res["same_space"] = profile == "debug"  # same inputs as the release run
             results.append(res)
             continue
+        hang = _hang_case(txt) if rc == 97 else None
+        if hang:
+            # the in-process watchdog named the input: isolated re-run rule (3 x 30 s)
+            stream, idx = hang.rsplit(":", 1)
+            kinds = []
+            for _ in range(3):
+                rc2, txt2 = _c03_run_range(binary, tier, seed, h["scale"], stream, int(idx), int(idx) + 1, out, 60, h["verif"])
+                kinds.append(rc2)
+            if all(k in (97, "timeout") for k in kinds):
+                h.setdefault("state", {})["abnormal"] = True
+                results.append({"property_id": "C03", "profile": profile, "leg": "supervisor", "evaluations": 0, "distinct_nontrivial": 0, "counters": {}, "floors": [], "samples": [],
+                                "violations": [{"sig": "C03:hang:%s" % stream, "what": "input %s does not terminate in the %s build: one case exceeded 30 s (> 10^6 x the normal cost) in the corpus run and in 3 isolated re-runs" % (hang, profile), "case": hang, "count": 1, "detail": {"profile": profile}}]})
+            else:
+                errs.append("C03 %s: case %s exceeded 30 s once but not in 3 isolated re-runs (%s): machine load, not a verdict" % (profile, hang, kinds))
+            continue
         if _abnormal(rc):
             # abort / stack overflow / hang: find the input
             rc2, streams = _run([binary, "streams", "C03", "--tier", tier] + (["--scale", h["scale"]] if h["scale"] else []), h["verif"])
@@ -92,6 +114,7 @@ def leg_c03_profiles(pid, tier, seed, h):
                     if found:
                         break
             if found:
+                h.setdefault("state", {})["abnormal"] = True
                 results.append({"property_id": "C03", "profile": profile, "leg": "supervisor", "evaluations": 0, "distinct_nontrivial": 0, "violations": [found], "counters": {}, "floors": [], "samples": []})
             else:
                 errs.append("C03 %s worker exited abnormally (%s) but no single input reproduces it 3 times: %s" % (profile, rc, txt[-300:]))
@@ -102,6 +125,8 @@ def leg_c03_profiles(pid, tier, seed, h):
 
 def leg_c03_miri(pid, tier, seed, h):
     """Miri interprets the multi-byte-heavy subset (winnow's unsafe slicing on char boundaries)."""
+    if h.get("state", {}).get("abnormal"):
+        return [], []
     shards = 16
     per = 8 if tier == "quick" else 120
     env = h["env"]()
@@ -122,9 +147,10 @@ def leg_c03_miri(pid, tier, seed, h):
     viol = []
     for k, out, p in procs:
         try:
-            txt, _ = p.communicate(timeout=3000)
+            txt, _ = p.communicate(timeout=1500)
         except subprocess.TimeoutExpired:
             p.kill()
+            subprocess.run("pkill -f 'range multibyte:%d:%d'" % (k * per, (k + 1) * per), shell=True)
             errs.append("Miri shard %d exceeded the watchdog" % k)
             continue
         if p.returncode == 0 and os.path.exists(out):
@@ -144,6 +170,8 @@ def leg_c03_miri(pid, tier, seed, h):
 
 def leg_c03_asan(pid, tier, seed, h):
     """The corpus again under AddressSanitizer (nightly rustc -Zsanitizer=address; std not rebuilt)."""
+    if h.get("state", {}).get("abnormal"):
+        return [], []  # the worker already dies / hangs on a known input: reported by the supervisor
     env = h["env"]()
     env["CARGO_TARGET_DIR"] = os.path.join(h["target"], "asan")
     env["RUSTFLAGS"] = "-Zsanitizer=address -Cforce-frame-pointers=yes -Awarnings"
@@ -174,7 +202,7 @@ def leg_c03_asan(pid, tier, seed, h):
 
 
 def leg_c03_valgrind(pid, tier, seed, h):
-    if tier != "thorough":
+    if tier != "thorough" or h.get("state", {}).get("abnormal"):
         return [], []
     binary, _ = h["build"]("release")
     out = os.path.join(h["logs"], "C03.valgrind.json")
